@@ -37,10 +37,22 @@ theorem total_ok : ∀ p, total p = true → ∀ x, ∃ b, evalG p x = .ok b := 
 theorem outs_ints_none {v : GVal} (h : Outs (.ints Option.none Option.none 0 0) v) : ∃ a, v = .int a := by
   obtain ⟨a, rfl, _⟩ := h; exact ⟨a, rfl⟩
 
-/-- `random_anys()` yields ints, strs and floats. -/
+/-- Between two finite bounds only finite floats. -/
+theorem fin_of_between {lo hi : Int} {a : XF} (h1 : XF.le (.fin lo) a = true) (h2 : XF.le a (.fin hi) = true) :
+    ∃ k, a = .fin k ∧ lo ≤ k ∧ k ≤ hi := by
+  cases a with
+  | fin k => exact ⟨k, rfl, by simpa [XF.le] using h1, by simpa [XF.le] using h2⟩
+  | inf n => cases n <;> simp [XF.le] at h1 h2
+
+theorem cLo_le_cHi : XF.le (.fin cLo) (.fin cHi) = true := by
+  have := cLo_neg; have := cHi_pos; simp [XF.le]; omega
+
+/-- `random_anys()` yields ints, strs and (finite) floats. -/
 theorem outs_anys {v : GVal} (h : Outs anys v) : (∃ a, v = .int a) ∨ (∃ cs, v = .str cs) ∨ (∃ k, v = .flt k) := by
   simp only [anys, Outs, List.not_mem_nil, false_or] at h
-  obtain ⟨xs, ⟨x1, r1, h1, ⟨a, rfl, _⟩, ⟨x2, r2, h2, ⟨cs, rfl⟩, ⟨x3, r3, h3, ⟨k, rfl, _⟩, h4⟩⟩⟩, hv⟩ := h
+  obtain ⟨xs, ⟨x1, r1, h1, ⟨a, rfl, _⟩, ⟨x2, r2, h2, ⟨cs, rfl⟩, ⟨x3, r3, h3, ⟨k', rfl, hk'⟩, h4⟩⟩⟩, hv⟩ := h
+  obtain ⟨k, rfl, _, _⟩ := fin_of_between (hk' cLo_le_cHi).1 (hk' cLo_le_cHi).2
+  simp only [XF.val] at *
   simp only [GVal.tuple.injEq] at h1 h2 h3 h4
   subst h4; subst h3; subst h2; subst h1
   simp only [List.mem_cons, List.not_mem_nil, or_false] at hv
@@ -56,27 +68,36 @@ theorem byFirstMember_outs (p : GP) (neg : Bool) (s : List GVal) {v : GVal}
   | cons a as ih =>
     cases a <;> simp only [byFirstMember] at h <;> first | exact h.2 | exact ih h
 
+/-- The float arm of a comparison clause: a float (possibly infinite) within the bounds that were passed. -/
+theorem floats_between {flo fhi : XF → Option XF} (hf : ∀ k, flo k = Option.none ∨ fhi k = Option.none) (k : XF) {x : GVal}
+    (h : Outs (floatsFrom (flo k) (fhi k)) x) :
+    ∃ a : XF, x = a.val ∧ (∀ l, flo k = some l → XF.le l a = true) ∧ (∀ u, fhi k = some u → XF.le a u = true) := by
+  obtain ⟨lo, hi, he, hle, h1, h2⟩ := floatsFrom_ordered (flo k) (fhi k) (by
+    intro l u hl hu; rcases hf k with h' | h' <;> simp_all)
+  rw [he] at h
+  obtain ⟨a, rfl, hb⟩ := h
+  obtain ⟨hb1, hb2⟩ := hb hle
+  refine ⟨a, rfl, ?_, ?_⟩
+  · intro l hl; rw [← h1 l hl]; exact hb1
+  · intro u hu; rw [← h2 u hu]; exact hb2
+
 /-- What a comparison clause can yield: a listed datetime, a float within the float bounds,
 an int within the int bounds, or a value that passed the rejection filter. -/
 theorem cmpGen_outs (p : GP) (neg : Bool) (v : GVal) (days : Int → List GVal)
-    (flo fhi ilo ihi : Int → Option Int) (hf : ∀ k, flo k = Option.none ∨ fhi k = Option.none) {x : GVal}
+    (flo fhi : XF → Option XF) (ilo ihi : Int → Option Int) (hf : ∀ k, flo k = Option.none ∨ fhi k = Option.none) {x : GVal}
     (h : Outs (cmpGen p neg v days flo fhi ilo ihi) x) :
     (∃ a, v = .dt a ∧ x ∈ days a)
-    ∨ (∃ k a, v = .flt k ∧ x = .flt a ∧ (∀ l, flo k = some l → l ≤ a) ∧ (∀ u, fhi k = some u → a ≤ u))
+    ∨ (∃ k a : XF, v = k.val ∧ x = a.val ∧ (∀ l, flo k = some l → XF.le l a = true) ∧ (∀ u, fhi k = some u → XF.le a u = true))
     ∨ (∃ n a, asInt v = some n ∧ x = .int a ∧ (∀ l, ilo n = some l → l ≤ a) ∧ (∀ u, ihi n = some u → a ≤ u))
     ∨ evalG p x = .ok (!neg) := by
   cases v with
   | dt a => exact Or.inl ⟨a, rfl, by simpa [cmpGen, Outs] using h⟩
   | flt k =>
-    simp only [cmpGen] at h
-    obtain ⟨lo, hi, he, hle, h1, h2⟩ := floatsFrom_ordered (flo k) (fhi k) (by
-      intro l u hl hu; rcases hf k with h' | h' <;> simp_all)
-    rw [he] at h
-    obtain ⟨a, rfl, hb⟩ := h
-    obtain ⟨hb1, hb2⟩ := hb hle
-    refine Or.inr (Or.inl ⟨k, a, rfl, rfl, ?_, ?_⟩)
-    · intro l hl; rw [← h1 l hl]; exact hb1
-    · intro u hu; rw [← h2 u hu]; exact hb2
+    obtain ⟨a, ha, h1, h2⟩ := floats_between hf (.fin k) (by simpa [cmpGen] using h)
+    exact Or.inr (Or.inl ⟨.fin k, a, rfl, ha, h1, h2⟩)
+  | inf n =>
+    obtain ⟨a, ha, h1, h2⟩ := floats_between hf (.inf n) (by simpa [cmpGen] using h)
+    exact Or.inr (Or.inl ⟨.inf n, a, rfl, ha, h1, h2⟩)
   | str cs => exact Or.inr (Or.inr (Or.inr (by simpa [cmpGen, Outs] using h.2)))
   | uuid n => exact Or.inr (Or.inr (Or.inr (by simpa [cmpGen, Outs] using h.2)))
   | int n =>
